@@ -81,7 +81,8 @@ META = {
         "dropped). R5 - one node held in a local/parameter gets a parent at most once per path, counting library calls that append "
         "their content argument to what they build (make_refnode child, Domain.resolve_xref/resolve_any_xref contnode). R7 - because "
         "inline render methods copy an `id` attribute, a package transform ordered after docutils' Contents (priority read from the "
-        "docutils source) clears the ids of the copies in the contents topic and is registered in both front ends. R8 - a node built "
+        "docutils source) clears the ids of the copies in the contents topic, selects every topic that has the class 'contents' (plain membership: docutils "
+        "adds 'local' and :class: values to the list) and is registered in both front ends. R8 - a node built "
         "locally and filled by state.nested_parse is handed on (itself or something derived from its children) by every return that "
         "follows the parse. R9 - a preset id (ids=[x]) is used only where `x not in document.ids` is known, since docutils' set_id only "
         "reports a clash of preset ids (read from the docutils source). "
@@ -694,6 +695,30 @@ class _LevelMap:
             it = gen.iter
             if isinstance(it, ast.Call) and isinstance(it.func, ast.Attribute) and it.func.attr == "items" and self._is_map(it.func.value) and isinstance(gen.target, ast.Tuple) and len(gen.target.elts) == 2 and unparse(e.value) == unparse(gen.target.elts[1]):
                 return "map", "filtered copy of the level map"
+            # {k: <expr using the map's own elements> for k, v in map.items()}
+            if isinstance(it, ast.Call) and isinstance(it.func, ast.Attribute) and it.func.attr == "items" and self._is_map(it.func.value) and isinstance(gen.target, ast.Tuple) and len(gen.target.elts) == 2 and isinstance(gen.target.elts[1], ast.Name):
+                elem = gen.target.elts[1].id
+
+                def val_kind(x: ast.expr) -> tuple[str, str]:
+                    if isinstance(x, ast.Name) and x.id == elem:
+                        return "sec", "an element of the level map"
+                    if isinstance(x, ast.IfExp):
+                        a, b = val_kind(x.body), val_kind(x.orelse)
+                        for k_ in (a, b):
+                            if k_[0] == "other":
+                                return k_
+                        if a[0] == "none" or b[0] == "none":
+                            return b if a[0] == "none" else a
+                        return a
+                    if any(isinstance(y, ast.Name) and y.id == elem for y in ast.walk(x)):
+                        raise Unsupported(f"value `{short(x, 50)}` computed from a level-map element is not understood")
+                    return self.kind(x, fi, depth + 1)
+
+                k, why = val_kind(e.value)
+                if k in ("doc", "sec"):
+                    return "map", f"level-map elements / {why}"
+                if k == "other":
+                    return "other", why
             # {key: <value> for ...}: every value is what the value expression evaluates to
             bound = {x.id for x in ast.walk(gen.target) if isinstance(x, ast.Name)}
             if not ({x.id for x in ast.walk(e.value) if isinstance(x, ast.Name)} & bound):
@@ -3114,6 +3139,63 @@ def _ids_transfers(fi: FunctionInfo) -> list[tuple[ast.AST, str, str, str]]:
     return out
 
 
+def _contents_topic_selection(corpus: Corpus, rep: Report, t_) -> None:
+    """docutils' contents directive gives its topic the class 'contents' *among others* (`:local:` appends 'local',
+    `:class:` appends more; read from the docutils source): the transform must treat every topic that has the class,
+    so its selection is the plain membership test - an equality with a fixed class list, or an extra condition that
+    skips some of them, leaves copies with ids in the tree."""
+    d = corpus.sibling("docutils/parsers/rst/directives/parts.py")
+    rep.saw_sibling(d.rel)
+    f = d.functions.get("Contents.run")
+    grows = f is not None and any(
+        (isinstance(n, ast.AugAssign) and isinstance(n.target, ast.Subscript) and unparse(n.target.slice) == "'classes'")
+        or (isinstance(n, ast.Call) and isinstance(n.func, ast.Attribute) and n.func.attr in ("append", "extend") and isinstance(n.func.value, ast.Subscript) and unparse(n.func.value.slice) == "'classes'")
+        for n in ast.walk(f.node)
+    )
+    ap = t_.methods["apply"]
+    key = f"{ap.fq}|every topic that has the class 'contents' is cleaned"
+    site = ap.site()
+    if not grows:
+        rep.ok("C03.R7", key, site, "the installed docutils gives contents topics exactly one class: any selection on it is complete")
+        return
+    tests = [n for n in ap.local_nodes() if isinstance(n, ast.If) and any(isinstance(c, ast.Constant) and c.value == "contents" for c in ast.walk(n.test))]
+    if len(tests) != 1:
+        rep.error("C03.R7", f"{site} {key}: expected one test selecting the contents topics, found {len(tests)}")
+        return
+    iff = tests[0]
+    skip_form = bool(iff.body) and isinstance(iff.body[-1], (ast.Continue, ast.Return)) and len(iff.body) == 1
+
+    def member(x: ast.expr):
+        """'in' / 'not in' when x is `"contents" (not) in <something>["classes"]`-like, 'eq' for a comparison with a fixed list."""
+        if isinstance(x, ast.Compare) and len(x.ops) == 1:
+            l, r = x.left, x.comparators[0]
+            is_cls = lambda y: "classes" in unparse(y)
+            if isinstance(l, ast.Constant) and l.value == "contents" and is_cls(r) and isinstance(x.ops[0], (ast.In, ast.NotIn)):
+                return "in" if isinstance(x.ops[0], ast.In) else "notin"
+            if isinstance(x.ops[0], (ast.Eq, ast.NotEq)) and ((is_cls(l) and isinstance(r, (ast.List, ast.Tuple))) or (is_cls(r) and isinstance(l, (ast.List, ast.Tuple)))):
+                return "eq"
+        return None
+
+    t = iff.test
+    while isinstance(t, ast.UnaryOp) and isinstance(t.op, ast.Not):
+        t = t.operand
+    parts = t.values if isinstance(t, ast.BoolOp) else [t]
+    kinds = [member(x) for x in parts]
+    if "eq" in kinds:
+        rep.violation("C03.R7", key, ap.module.site(iff), f"`{short(iff.test, 60)}` selects only topics whose class list equals a fixed list: docutils appends 'local' (`:local:`) and the `:class:` values to ['contents'], so such a table of contents keeps the ids copied from the headings (duplicate ids)")
+        return
+    want = "notin" if skip_form else "in"
+    if want not in kinds:
+        rep.error("C03.R7", f"{ap.module.site(iff)} {key}: selection `{short(iff.test, 60)}` is not a membership test of 'contents' in the topic's classes")
+        return
+    extra = [x for x, k in zip(parts, kinds) if k is None]
+    narrows = extra and ((skip_form and isinstance(t, ast.BoolOp) and isinstance(t.op, ast.Or)) or (not skip_form and isinstance(t, ast.BoolOp) and isinstance(t.op, ast.And)))
+    if narrows:
+        rep.violation("C03.R7", key, ap.module.site(iff), f"`{short(iff.test, 70)}` leaves out contents topics for which `{short(extra[0], 40)}` holds: their entries keep the ids copied from the headings (duplicate ids)")
+    else:
+        rep.ok("C03.R7", key, ap.module.site(iff), f"selected by `{short(iff.test, 50)}`")
+
+
 def _contents_copies_lose_ids(corpus: Corpus, rep: Report) -> None:
     """docutils' `contents` directive builds its entries from deep copies of the section titles (transforms/parts.py,
     Contents) and strips only what rST can put into a title.  MyST can put an id on any inline element of a heading
@@ -3164,6 +3246,7 @@ def _contents_copies_lose_ids(corpus: Corpus, rep: Report) -> None:
         return
     t_ = good[0]
     rep.ok("C03.R7", key0, t_.module.site(t_.node), f"{t_.name} (priority > {prio})")
+    _contents_topic_selection(corpus, rep, t_)
     for modname, q in (("parsers.docutils_", "Parser.get_transforms"), ("parsers.sphinx_", "MystParser.get_transforms")):
         f = corpus.func(f"{modname}:{q}")
         listed = any(isinstance(n, ast.Name) and n.id == t_.name and f.module.resolve(n.id).endswith("." + t_.name) for n in f.local_nodes())
@@ -3950,6 +4033,20 @@ def mutants(corpus: Corpus):
     ucls = tf.classes.get("UniqueContentsIds")
     pr = next((st_ for st_ in ucls.node.body if isinstance(st_, ast.Assign) and unparse(st_.targets[0]) == "default_priority"), None) if ucls is not None else None
     add("c03-contents-ids-transform-runs-before-contents", "C03.R7", tf, pr.value if pr is not None else None, "719", "contents directive")
+    ucls = tf.classes.get("UniqueContentsIds")
+    if ucls is not None and "apply" in ucls.methods:
+        uap = ucls.methods["apply"]
+        sel = find_node(uap, lambda n: isinstance(n, ast.If) and any(isinstance(c, ast.Constant) and c.value == "contents" for c in ast.walk(n.test)))
+        if sel is not None and isinstance(sel.test, ast.Compare):
+            cls_expr = unparse(sel.test.comparators[0])
+            add("c03-contents-topics-selected-by-exact-class-list", "C03.R7", tf, sel.test, f"{cls_expr} != ['contents']", "every topic that has the class")
+            add("c03-local-contents-topics-skipped", "C03.R7", tf, sel.test, f"{unparse(sel.test)} or 'local' in {cls_expr}", "every topic that has the class")
+        else:
+            out.append(("c03-contents-topics-selected-by-exact-class-list", "selection test of UniqueContentsIds not found"))
+    f = base.func("DocutilsRenderer.nested_render_text._restore") if corpus.has_func("myst_parser.mdit_to_docutils.base:DocutilsRenderer.nested_render_text._restore") else None
+    if f is not None:
+        dc = find_node(f, lambda n: isinstance(n, ast.DictComp) and unparse(n.value) == "temp_root_node")
+        add("c03-levelmap-open-sections-rerooted-only", "C03.R1", base, dc, "{level: temp_root_node if isinstance(node, nodes.section) else node for level, node in self._level_to_section.items()}" if dc is not None else "", "store into _level_to_section")
     f = tf.func("ResolveAnchorIds.apply")
     tests = [n for n in f.local_nodes() if isinstance(n, ast.BoolOp) and isinstance(n.op, ast.And) and len(n.values) == 2 and unparse(n.values[1]).endswith(" in tree_ids")]
     if len(tests) >= 2:
